@@ -70,7 +70,7 @@ Print Assumptions registry_never_written.
 
 Example registry_nonvacuous :
   arrays (do_calls true wit_heap wit_calls) =
-    [[1; 2; 0; 0]%Z; [7%Z]; [1; 2]%Z; [1; 2; 7; 0]%Z; [1; 2; 7]%Z] /\
+    [[1; 2; 0; 0]%Z; [7%Z]; [1; 2; 7]%Z; [1; 2; 7]%Z] /\
   read (fst (supported_tags true wit_heap (Some wit_regime) [wit_addon]))
        (snd (supported_tags true wit_heap (Some wit_regime) [wit_addon])) = [1; 2; 7]%Z /\
   nth 0 (arrays (do_calls false wit_heap wit_calls)) [] = [1; 2; 7; 0]%Z.
